@@ -151,14 +151,39 @@ pub fn any_vs_fixed(order: Order, bytes: &[u8], out: &mut Outcome) {
 pub struct PrefixCompare {
     /// for suffix cases of generated well-formed images: answers identical including errors
     pub strict_suffix: bool,
+    /// records of the complete skeleton (computed once per space)
+    pub cache: std::sync::OnceLock<Option<Vec<Rec>>>,
+}
+impl PrefixCompare {
+    pub fn new(strict_suffix: bool) -> PrefixCompare {
+        PrefixCompare { strict_suffix, cache: std::sync::OnceLock::new() }
+    }
 }
 impl PrefixOracle for PrefixCompare {
     fn check(&self, sk: &Skeleton, whole: &[u8], cut: &[u8], out: &mut Outcome) {
         let mut w = RecordSink::new();
         let mut c = RecordSink::new();
-        let rw = subject(|| observe::<AnyEndian, _>(whole, &mut w, &Opts { crafted: false }));
+        let rw: Result<bool, String> = if whole.len() == sk.bytes.len() {
+            // the whole file is the skeleton itself: observe it once per space
+            let cached = self.cache.get_or_init(|| {
+                let mut w0 = RecordSink::new();
+                match subject(|| observe::<AnyEndian, _>(whole, &mut w0, &Opts { crafted: false })) {
+                    Ok(_) => Some(w0.recs),
+                    Err(_) => None,
+                }
+            });
+            match cached {
+                Some(r) => {
+                    w.recs = r.clone();
+                    Ok(true)
+                }
+                None => Err("whole file panicked".into()),
+            }
+        } else {
+            subject(|| observe::<AnyEndian, _>(whole, &mut w, &Opts { crafted: false }))
+        };
         let rc = subject(|| observe::<AnyEndian, _>(cut, &mut c, &Opts { crafted: false }));
-        out.transitions += (w.recs.len() + c.recs.len()) as u64;
+        out.transitions += c.recs.len() as u64;
         if let Err(m) = &rc {
             out.violate(format!("panic:{} in {}", qname(c.last_key().q), panic_site(m)), m.clone());
             return;
